@@ -20,7 +20,7 @@ THEOREMS = ["C02_order_free", "C02_is_git_tree", "C02_git_order", "C02_mode_octa
 RULE = ("entry sets of 0-40 entries (plus a few of several hundred entries with more distinct modes than the mode cache "
         "holds, names of several thousand bytes, payload lengths 1 below / at / above a power of ten); names built as "
         "prefix chains over an adversarial alphabet (bytes next to '/', space, newline, NUL, >=0x80, both letter cases) "
-        "with file/dir/rev types mixed so that keys collide in sort order; perms: the five canonical, boundary values "
+        "with file/dir/rev types mixed so that keys collide in sort order (and homogeneous sets: all sub-directories, all files, all revisions); perms: the five canonical, boundary values "
         "(0, 1, 7, 8, set-uid/set-gid/sticky bits, symlink and directory types with permission bits, 0o177777), random "
         "16-bit and a few beyond 16 bits (2^16 .. 2^64; the theorems cover every N); targets random or patterned "
         "(all 00 / ff / spaces / newlines, leading / trailing NUL); each set is supplied in a chosen order (shuffled, "
@@ -124,8 +124,10 @@ def gen_entries(rng, n, kind):
     """-> (entries, the entry that makes the set invalid or None)"""
     names = gen_names(rng, n, allow_bad=(kind == "nul"))
     es = []
+    # homogeneous sets (all sub-directories, all files, all revisions) as well as mixed ones
+    pool = rng.choice([TYPES] * 7 + [["dir"], ["file"], ["rev"], ["dir", "dir", "dir", "file"], ["dir", "rev"]])
     for nm in names:
-        t = rng.choice(TYPES)
+        t = rng.choice(pool)
         tl = 20 if kind != "shorttarget" else rng.choice([0, 1, 19, 20, 21])
         es.append([nm.hex(), t, gen_target(rng, tl).hex(), gen_perms(rng)])
     bad = None
@@ -290,6 +292,8 @@ def classify(c):
         ks.append("target-not-20")
     if nontrivial(c):
         ks.append("prefix-or-straddle")
+    if len(ns) >= 2 and len({e[1] for e in c["entries"]}) == 1:
+        ks.append("all-" + c["entries"][0][1])
     ps = [e[3] for e in c["entries"]]
     if any(p & 0o7000 and p < 65536 for p in ps):
         ks.append("perms:suid/sgid/sticky-bits")
@@ -420,6 +424,14 @@ def _try(f):
         return "error:" + exc_class(e)
 
 
+def _verdict(f):
+    try:
+        f()
+        return "accepted"
+    except Exception as e:
+        return exc_class(e)
+
+
 def _ishex(x, n=None):
     if not isinstance(x, str) or x.startswith("error:") or (n is not None and len(x) != n):
         return False
@@ -476,6 +488,13 @@ def impl(c):
         d = _build(es)
     except Exception as e:
         res["error"] = exc_class(e)
+        # a refused set is refused whatever the argument shapes and the route
+        res["error_shapes"] = _verdict(lambda: _build(es, shape=c.get("shape", ())))
+        res["error_from_dict"] = _verdict(lambda: Directory.from_dict(_dict_arg(es, c.get("dict_as", "list"))))
+        with warnings.catch_warnings():
+            warnings.simplefilter("ignore")
+            res["error_dict_arg"] = _verdict(lambda: git_objects.directory_git_object(_dict_arg(es, c.get("dict_as", "list"))))
+        res["error_evolve"] = _verdict(lambda: Directory(entries=()).evolve(entries=_build_entries(es)))
         _impl_variant(c, res, None)
         return res
     # the reads, in the order of the case
@@ -502,8 +521,8 @@ def impl(c):
             for stale in (b"\x01" * 20, _LAST_ID[0], own):
                 git_objects.directory_git_object({"id": stale, "entries": [dict(e) for e in ents[1:]]})   # another object seen under that id first
                 m2 = git_objects.directory_git_object({"id": stale, "entries": [dict(e) for e in ents]}).hex()
-                if m2 != res["manifest_from_dict_arg"]:
-                    res["manifest_from_dict_arg"] = "differs when the dict carries the id %s: %s" % (stale.hex(), m2[:80])
+                if m2 != res.get("manifest") and "manifest_from_dict_stale_id" not in res:
+                    res["manifest_from_dict_stale_id"] = "differs when the dict carries the id %s: %s" % (stale.hex(), m2[:80])
             # ... and the same dict object handed in twice: the call must not consume or edit its argument
             dd = {"entries": ents}
             snap = copy.deepcopy(dd)
@@ -618,11 +637,13 @@ def _valid(es):
 
 
 def _wf(c):
-    return all(b"\x00" not in n and b"/" not in n for n in _names(c))
+    """names NUL- and '/'-free, modes within the 16 bits the property quantifies over (the model and the theorems take
+    every N: larger modes are compared with the model, not judged by the oracle)"""
+    return all(b"\x00" not in n and b"/" not in n for n in _names(c)) and all(0 <= e[3] < 65536 for e in c["entries"])
 
 
 def _decodable(es):
-    return all(b"\x00" not in bytes.fromhex(e[0]) and len(e[2]) == 40 for e in es)
+    return all(b"\x00" not in bytes.fromhex(e[0]) and len(e[2]) == 40 and 0 <= e[3] < 65536 for e in es)
 
 
 def _triples(es):
@@ -662,6 +683,8 @@ def oracle(c, ires, mres):
     if ires["manifest_from_dict_arg"] != ires["manifest"]:
         return "directory_git_object(<dict>) differs from directory_git_object(<Directory>) (entries given as %s): %s" % (
             c.get("dict_as", "list"), ires["manifest_from_dict_arg"][:120])
+    if "manifest_from_dict_stale_id" in ires:
+        return "directory_git_object(<dict>) differs from directory_git_object(<Directory>): " + ires["manifest_from_dict_stale_id"][:200]
     if ires["id_from_dict"] != ires["id"] or ires["compute_hash"] != ires["id"]:
         return "id differs between constructor / from_dict (entries given as %s) / compute_hash%s: %s / %s / %s" % (
             c.get("dict_as", "list"), order, ires["id"], ires["id_from_dict"], ires["compute_hash"])
@@ -698,7 +721,8 @@ def oracle(c, ires, mres):
             if sorted(dec) != want:
                 return "decoding the manifest does not give back the entry set"
             if "sorted_names_dict" in ires and ires["sorted_names_dict"] != [n.hex() for _, n, _ in dec]:
-                return "directory_entry_sort_key on dictionary entries does not give git's order: %s" % (ires["sorted_names_dict"][:8],)
+                got = ires["sorted_names_dict"]
+                return "directory_entry_sort_key on dictionary entries does not give git's order: %s" % (got if isinstance(got, str) else got[:8],)
             if v and _valid(v["entries"]) and _decodable(v["entries"]):
                 return _oracle_variant(c, ires, mres, ires)
     return None
@@ -738,6 +762,12 @@ def compare(c, ires, mres):
     if "error" in ires:
         if mres["dir"] != "err " + ires["error"]:
             return "implementation raised %s, model says %s" % (ires["error"], mres["dir"][:40])
+        for k, what in (("error_shapes", "the same entries given with the shapes %s" % c.get("shape")),
+                        ("error_from_dict", "Directory.from_dict (entries given as %s)" % c.get("dict_as")),
+                        ("error_dict_arg", "directory_git_object(<dict>) (entries given as %s)" % c.get("dict_as")),
+                        ("error_evolve", "Directory(entries=()).evolve(entries=...)")):
+            if k in ires and ires[k] != ires["error"]:
+                return "the constructor refuses this set with %s (as the model), but %s: %s" % (ires["error"], what, ires[k])
         return None
     if not mres["dir"].startswith("ok "):
         return "implementation accepted, model says " + mres["dir"]
@@ -765,6 +795,9 @@ def compare(c, ires, mres):
 
 
 def shrink(c):
+    """candidates keep the second entry set (variant) related to the first: what is removed / renamed in one is removed /
+    renamed in the other, so that a failure that needs the pair is reproduced by the case itself and not by what an
+    earlier evaluation left in the process"""
     es = c["entries"]
     # first the dimensions around the entry set
     for key, simple in (("variant", None), ("raw", None), ("shape", []), ("dict_as", "list"), ("reads", list(READS)), ("cuts", [])):
@@ -773,20 +806,27 @@ def shrink(c):
     if c.get("shape") and len(c["shape"]) > 1:
         for s in c["shape"]:
             yield dict(c, shape=[x for x in c["shape"] if x != s])
+    v = c.get("variant")
     for k in range(len(es)):
         sub = es[:k] + es[k + 1:]
         c2 = dict(c, entries=sub, perm=list(reversed(range(len(sub)))))
         if "perm2" in c2:
             c2["perm2"] = list(range(len(sub)))
-        if c.get("variant"):
-            c2["variant"] = dict(c["variant"], entries=[e for e in c["variant"]["entries"] if e[0] != es[k][0]])
+        if v:
+            c2["variant"] = dict(v, entries=[e for e in v["entries"] if e[0] != es[k][0]])
         yield c2
     for k, e in enumerate(es):
         nm = bytes.fromhex(e[0])
         if len(nm) > 1:
             for cut in (nm[:-1], nm[1:]):
-                e2 = [cut.hex()] + e[1:]
-                yield dict(c, entries=es[:k] + [e2] + es[k + 1:])
+                if cut.hex() in [x[0] for x in es]:
+                    continue
+                c2 = dict(c, entries=es[:k] + [[cut.hex()] + e[1:]] + es[k + 1:])
+                if v:
+                    if v["kind"] == "name" or any(x[0] == cut.hex() for x in v["entries"]):
+                        continue
+                    c2["variant"] = dict(v, entries=[[cut.hex()] + x[1:] if x[0] == e[0] else x for x in v["entries"]])
+                yield c2
 
 
 def pre_checks(ctx):
